@@ -401,6 +401,13 @@ type FaultStats struct {
 // RunFaultProgram runs a history with one fault window and checks containment.
 func RunFaultProgram(r *RNG, cfg Config, p Params) (*Session, FaultStats) {
 	var st FaultStats
+	// fault kind first: mapping faults need a file whose mapping has to grow
+	kinds := []string{"write", "write", "sync", "sync", "mmap", "truncate", "size"}
+	kind := kinds[r.Intn(len(kinds))]
+	growMap := (kind == "mmap" || kind == "size") && r.Chance(70)
+	if growMap {
+		cfg.MaxPages, cfg.Prealloc = 0, false // only unbounded files are remapped when they grow
+	}
 	s := NewSession(cfg)
 	if s.Open() != "ok" {
 		return s, st
@@ -413,8 +420,6 @@ func RunFaultProgram(r *RNG, cfg Config, p Params) (*Session, FaultStats) {
 		return s, st
 	}
 	// fault window
-	kinds := []string{"write", "write", "sync", "sync", "mmap", "truncate", "size"}
-	kind := kinds[r.Intn(len(kinds))]
 	act := simdisk.ActErr
 	if kind == "write" && r.Chance(30) {
 		act = simdisk.ActShort
@@ -423,6 +428,9 @@ func RunFaultProgram(r *RNG, cfg Config, p Params) (*Session, FaultStats) {
 		act = simdisk.ActAfter
 	}
 	first := r.Intn(8)
+	if growMap {
+		first = r.Intn(2)
+	}
 	burst := 1 + r.Intn(3)
 	base, _ := s.Disk.CallCounts()
 	from := base[kind] + first
@@ -455,6 +463,15 @@ func RunFaultProgram(r *RNG, cfg Config, p Params) (*Session, FaultStats) {
 		fp := p
 		fp.AbortPct = 10
 		fp.NoQuiesce = true
+		if growMap && t == 0 {
+			// this transaction's commit grows the file past the mapped region: the remap is what fails
+			fs := s.F.VerifSnapshot()
+			if mp := uint64(fs.MappedLen) / uint64(s.Cfg.PageSize); mp >= fs.DataEnd {
+				fp.MinAlloc = int(mp-fs.DataEnd) + 1 + r.Intn(8)
+				fp.AbortPct = 0
+				s.mark("grow-past-mapping")
+			}
+		}
 		var attempted *SpecState
 		fp.BeforeEnd = func(s *Session, commit bool) {
 			if commit {
@@ -492,6 +509,7 @@ func RunFaultProgram(r *RNG, cfg Config, p Params) (*Session, FaultStats) {
 		_ = pre
 		// readers keep seeing the last successfully committed state
 		s.ReadCheck("C08")
+		s.AccountCheck() // and the failed attempt left no trace in the allocator (C11, C04)
 		fs := s.F.VerifSnapshot()
 		if fs.SharedCount != 0 || fs.PendingSet || !fs.ReservedFree {
 			s.fail("C08", "lock-not-idle", "lock not idle after operation under faults: shared=%d pending=%v reservedFree=%v", fs.SharedCount, fs.PendingSet, fs.ReservedFree)
@@ -517,7 +535,7 @@ func RunFaultProgram(r *RNG, cfg Config, p Params) (*Session, FaultStats) {
 		res := CheckImage(s.Disk.Contents(), s.Cfg.Options(), allowed, false)
 		// A commit whose final sync failed leaves a valid newer header in the
 		// inactive slot while the process goes on with the old state and re-uses
-		// the pages that header refers to (finding F-C08-1). Keep that case apart.
+		// the pages that header refers to (repaired by restoreMeta, 42e3ef9). Keep that case apart.
 		sfx := ""
 		if len(maybe) > 0 && s.writesSinceFinalSyncFailure() {
 			sfx = "-after-final-sync-failure"
